@@ -140,6 +140,86 @@ template <class SK, bool Const> void check_find()
   }
 }
 
+// find_* on ranges without size(), one per iterator category; the single-pass one can only be looked at through the
+// returned iterator (dereference), the others also by position
+template <class SK> void check_find_unsized()
+{
+  static std::string const n_find = std::string("find_opt(") + SK::name + ")";
+  static std::string const n_if = std::string("find_if_opt(") + SK::name + ")";
+  static std::string const n_by = std::string("find_by_opt(") + SK::name + ")";
+  constexpr bool sp = std::is_same_v<SK, k_single_pass>;
+  seq &log = call_log();
+  for (seq const &s : seqs3())
+  {
+    std::string const ss = show(s);
+    auto const first_index = [&s](auto pred) {
+      std::size_t i = 0;
+      while (i < s.size() && !pred(s[i]))
+        ++i;
+      return i;
+    };
+    for (int v = -1; v <= 3; ++v)
+    {
+      if (!vrt::begin_text(n_find.c_str(), n_find + " " + ss + " value=" + std::to_string(v)))
+        continue;
+      std::size_t const idx = first_index([v](int e) { return e == v; });
+      vrt::nontrivial(idx > 0 && idx < s.size());
+      typename SK::type const src = SK::make(s);
+      auto const r = fcppt::algorithm::find_opt(src, v);
+      consumed_once<SK>(src, n_find);
+      VRT_CHECK(r.has_value() == (idx < s.size()), n_find + ":presence", "has_value=%d, first index %zu of %zu",
+                int(r.has_value()), idx, s.size());
+      if (r.has_value() && idx < s.size())
+      {
+        VRT_CHECK(*r.get_unsafe() == v, n_find + ":element", "iterator refers to %d", *r.get_unsafe());
+        if constexpr (!sp)
+          VRT_CHECK(static_cast<std::size_t>(std::distance(src.begin(), r.get_unsafe())) == idx, n_find + ":position",
+                    "offset %td want %zu", std::distance(src.begin(), r.get_unsafe()), idx);
+      }
+    }
+    for (int p = 0; p < 8; ++p)
+    {
+      if (!vrt::begin_text(n_if.c_str(), n_if + " " + ss + " " + show_pred3(p)))
+        continue;
+      std::size_t const idx = first_index([p](int e) { return pred3(p, e); });
+      vrt::nontrivial(idx > 0 && idx < s.size());
+      vrt::maybe_sample();
+      typename SK::type const src = SK::make(s);
+      log.clear();
+      auto const r = fcppt::algorithm::find_if_opt(src, [p, &log](int e) {
+        log.push_back(e);
+        return pred3(p, e);
+      });
+      consumed_once<SK>(src, n_if);
+      VRT_CHECK(r.has_value() == (idx < s.size()), n_if + ":presence", "has_value=%d, first index %zu of %zu",
+                int(r.has_value()), idx, s.size());
+      if (r.has_value() && idx < s.size())
+        VRT_CHECK(*r.get_unsafe() == s[idx], n_if + ":element", "iterator refers to %d", *r.get_unsafe());
+      VRT_CHECK(is_prefix(log, s) && log.size() >= std::min(idx + 1, s.size()), n_if + ":calls",
+                "predicate called with %s on %s", show(log).c_str(), ss.c_str());
+    }
+    for (int g = 0; g < 64; ++g)
+    {
+      if (!vrt::begin_text(n_by.c_str(), n_by + " " + ss + " " + show_opt3(g)))
+        continue;
+      std::size_t const idx = first_index([g](int e) { return opt3(g, e) >= 0; });
+      vrt::nontrivial(idx > 0 && idx < s.size());
+      typename SK::type const src = SK::make(s);
+      log.clear();
+      fcppt::optional::object<int> const r = fcppt::algorithm::find_by_opt(src, [g, &log](int x) {
+        log.push_back(x);
+        return opt3(g, x) < 0 ? fcppt::optional::object<int>{} : fcppt::optional::object<int>{10 * x + opt3(g, x)};
+      });
+      consumed_once<SK>(src, n_by);
+      int const want = idx < s.size() ? 10 * s[idx] + opt3(g, s[idx]) : -1;
+      VRT_CHECK((r.has_value() ? r.get_unsafe() : -1) == want, n_by + ":wrong", "got %d want %d (-1 = nothing)",
+                r.has_value() ? r.get_unsafe() : -1, want);
+      VRT_CHECK(is_prefix(log, s) && log.size() >= std::min(idx + 1, s.size()), n_by + ":calls",
+                "function called with %s on %s", show(log).c_str(), ss.c_str());
+    }
+  }
+}
+
 template <class SK> void check_index_of()
 {
   static std::string const name = std::string("index_of(") + SK::name + ")";
@@ -679,6 +759,12 @@ void register_algorithm2_shards()
   c16::shard("find/assoc", [] {
     check_find<k_set, true>();
     check_find<k_multiset, false>();
+  });
+  c16::shard("categories/find", [] {
+    check_find_unsized<k_single_pass>();
+    check_find_unsized<k_fwd_unsized>();
+    check_find_unsized<k_bidi_unsized>();
+    check_find_unsized<k_ra_unsized>();
   });
   c16::shard("index_of", [] {
     check_index_of<k_vector>();
